@@ -494,6 +494,13 @@ func execute(h *run.H, c *Case, draw func(w *hist.World, i int) (hist.Step, []tx
 			return &outcome{"node-panic", "C03/node-panic/" + strings.Join(uniq(st.Kinds), "+"),
 				fmt.Sprintf("the application panicked in %s at height %d (kinds %v, tags %v) and shut itself down", w.R[0].PanicCall, w.C.Height, st.Kinds, st.Tags)}
 		}
+		if dbg := os.Getenv("VERIF_DEBUG_TAG"); dbg != "" {
+			for k, t := range res[0].Txs {
+				if k < len(st.Tags) && in(splitTags(st.Tags[k]), dbg) {
+					fmt.Fprintf(os.Stderr, "h=%d %s %v code=%d log=%.300s\n", w.C.Height, st.Kinds[k], st.Tags[k], t.Code, t.Log)
+				}
+			}
+		}
 		cur, err := ledger.Decode(w.R[0].DumpMap())
 		if err != nil {
 			return &outcome{"decode", "C03/decode", fmt.Sprintf("height %d: %v", w.C.Height, err)}
@@ -539,7 +546,42 @@ func olvmData(tx []byte) []byte {
 }
 
 // excludedTx reports whether a drawn transaction belongs to a class excluded by a known finding.
-func excludedTx(h *run.H, tx txgen.Tx) bool {
+// zeroPowerRestake reports whether tx is a STAKE on a validator whose committed record has no power, or
+// that has no record while the delegation store still holds a locked total for it (known finding owned
+// by C11: the block end deletes such a record, a later UNSTAKE drives the new record negative and the
+// negative total power kills the node in the fee distribution).
+func zeroPowerRestake(w *hist.World, tx txgen.Tx) bool {
+	if tx.Kind != "STAKE" || w == nil {
+		return false
+	}
+	var m struct {
+		ValidatorAddress string
+	}
+	if json.Unmarshal(msgBytes(tx.Bytes), &m) != nil || m.ValidatorAddress == "" {
+		return false
+	}
+	for _, r := range w.ValRecs() {
+		if r.Address.String() == m.ValidatorAddress {
+			return r.Power <= 0
+		}
+	}
+	return hist.ParseAmt(w.Get("st__t_"+m.ValidatorAddress)).Sign() > 0
+}
+
+func msgBytes(tx []byte) []byte {
+	var stx struct {
+		Data []byte `json:"data"`
+	}
+	if json.Unmarshal(tx, &stx) != nil {
+		return nil
+	}
+	return stx.Data
+}
+
+func excludedTx(h *run.H, w *hist.World, tx txgen.Tx) bool {
+	if zeroPowerRestake(w, tx) && h.Excluded("STAKE:zero-power-record") {
+		return true
+	}
 	if tx.Kind == "OLVM" && bytes.HasSuffix(olvmData(tx.Bytes), []byte{0x33, 0xff}) && h.Excluded("OLVM:selfdestruct-contract") {
 		return true
 	}
@@ -644,18 +686,18 @@ func drawTxs(h *run.H, g *hist.Gen, u *hist.U, max int) []txgen.Tx {
 	var out []txgen.Tx
 	for _, tx := range g.DrawTxs(max) {
 		if u.N(100, "sub") < 12 {
-			if s, ok := substituted(g, u); ok && !excludedTx(h, s) {
+			if s, ok := substituted(g, u); ok && !excludedTx(h, g.W, s) {
 				out = append(out, s)
 			}
 		}
-		if !excludedTx(h, tx) {
+		if !excludedTx(h, g.W, tx) {
 			out = append(out, tx)
 		}
 	}
 	return out
 }
 
-const rule = "generated genesis configuration x block history (all transaction families, 9 focus profiles, 30% of the signer / address / asset choices are somebody else's, 10-20% hostile amounts, plus transactions whose payload or signature envelope names an account that did not sign: WITHDRAW_REWARD signer address, OLVM from, swapped first public key) on one replica; the unit is one committed block: per externally owned account (users, stake accounts, validator key accounts, eth users) and currency the holdings decoded from the dump before and after may only decrease if the account's key signed a transaction of the block, or it is the stake account of a validator whose key signed one or that was found guilty in the block; non-trivial = the block contains at least one transaction whose message names an externally owned account that did not sign it; distinct by the multiset of (kind, named-non-signer flag, value-class tags, success) of the block"
+const rule = "generated genesis configuration x block history (all transaction families, 9 focus profiles, 30% of the signer / address / asset choices are somebody else's, 20-30% hostile amounts, plus transactions whose payload or signature envelope names an account that did not sign: WITHDRAW_REWARD signer address, OLVM from, swapped first public key) on one replica; the unit is one committed block: per externally owned account (users, stake accounts, validator key accounts, eth users) and currency the holdings decoded from the dump before and after may only decrease if the account's key signed a transaction of the block, or it is the stake account of a validator whose key signed one or that was found guilty in the block; non-trivial = the block contains at least one transaction whose message names an externally owned account that did not sign it; distinct by the multiset of (kind, named-non-signer flag, value-class tags, success) of the block"
 
 func TestC03(t *testing.T) {
 	h := run.Start(t, "C03")
@@ -666,7 +708,7 @@ func TestC03(t *testing.T) {
 		p := hist.GenParams(rt, fmt.Sprint(h.Seed))
 		prof := hist.PickProfile(rt)
 		u := hist.NewU(rt)
-		hostile := []int{10, 15, 20}[u.N(3, "hostile")]
+		hostile := []int{20, 25, 30}[u.N(3, "hostile")]
 		c := &Case{Trace: hist.Trace{Params: p, Roles: hist.Roles(p, 1), Profile: prof}}
 		nb := rapid.IntRange(4, maxBlocks).Draw(rt, "nblocks")
 		var g *hist.Gen
